@@ -73,6 +73,32 @@ Definition same_fail (o1 o2 : outcome) : bool :=
   | _, _ => false
   end.
 
+(* the well-formedness hypothesis of C03: the memo is keyed by the identity of the Forward OBJECT (`nid`), the model finds
+   the body through the index into the environment; `tbl` maps the one to the other, and every Forward node reachable
+   from the expression (contained expressions, ignorables, stop_on / fail_on) must agree with it *)
+Fixpoint fw (tbl : nat -> option nat) (e : expr) : bool :=
+  let fwl := fix fwl (l : list expr) : bool := match l with [] => true | x :: r => fw tbl x && fwl r end in
+  let fwo := fun o : option expr => match o with Some x => fw tbl x | None => true end in
+  match e with
+  | Tok a ign _ => fwl ign
+  | Nary a ign k es => fwl ign && fwl es
+  | Enh a ign k c => fwl ign && fw tbl c
+  | Rep a ign _ b ne => fwl ign && fw tbl b && fwo ne
+  | Skip a ign t _ ig fo => fwl ign && fw tbl t && fwl ig && fwo fo
+  | Fwd a ign body =>
+    fwl ign && match body with
+               | Some id => match tbl (nid a) with Some id' => Nat.eqb id id' | None => false end
+               | None => true
+               end
+  end.
+
+Fixpoint tbl_get (l : list (nat * nat)) (fid : nat) : option nat :=
+  match l with [] => None | (k, v) :: r => if Nat.eqb k fid then Some v else tbl_get r fid end.
+
+(* decidable: `tbl` lists (id(Forward object), index of its body in G) *)
+Definition ids_consistent (tbl : list (nat * nat)) (G : env) (root : expr) : bool :=
+  fw (tbl_get tbl) root && forallb (fw (tbl_get tbl)) G.
+
 Section LRT.
 Variable G : env.
 
